@@ -105,7 +105,7 @@ class CondGen(object):
             txt = '%d%s' % (n, u)
             return txt, Fraction(n) * PT[u]
         whole = r.choice([0, 1, 2, 3, 5, 10, 20, 72])
-        frac = r.choice(['', '', '.5', '.25', '.0', '.125', ',5'])
+        frac = r.choice(['', '', '.5', '.25', '.0', '.125', ',5', '.05', '.007', '.09'])
         txt = '%d%s' % (whole, frac)
         val = Fraction(whole) + (Fraction(int(frac[1:]), 10 ** (len(frac) - 1)) if frac else 0)
         if r.random() < 0.2 and whole == 0 and frac:
